@@ -242,6 +242,78 @@ Section ResolveProofs.
   Qed.
 End ResolveProofs.
 
+(** the prescription, hence the reference resolution, reads the method table and the
+    preferences only as SETS: the order in which methods were added or preferences declared
+    is immaterial *)
+Section ResolveSets.
+  Variable key : Type.
+  Variable key_eqb : key -> key -> bool.
+  Hypothesis key_eqb_spec : forall a b, key_eqb a b = true <-> a = b.
+  Variable isa : key -> key -> bool.
+  Variables M1 M2 : list (key * N).
+  Variables Pf1 Pf2 : list (key * key).
+  Variable d : key.
+  Hypothesis HM : forall e, In e M1 <-> In e M2.
+  Hypothesis HP : forall e, In e Pf1 <-> In e Pf2.
+
+  Lemma matches_ext k c : matches key isa M1 k c -> matches key isa M2 k c.
+  Proof. intros [[m Hm] Hi]. split; auto. exists m. now apply HM. Qed.
+
+  Lemma matches_ext' k c : matches key isa M2 k c -> matches key isa M1 k c.
+  Proof. intros [[m Hm] Hi]. split; auto. exists m. now apply HM. Qed.
+
+  Lemma dominant_ext k c : dominant key isa M1 Pf1 k c -> dominant key isa M2 Pf2 k c.
+  Proof.
+    intros [Hm Hd]. split; [now apply matches_ext|]. intros o Ho Hne.
+    destruct (Hd o (matches_ext' k o Ho) Hne) as [H|H]; [left; now apply HP|right; exact H].
+  Qed.
+
+  Lemma dominant_ext' k c : dominant key isa M2 Pf2 k c -> dominant key isa M1 Pf1 k c.
+  Proof.
+    intros [Hm Hd]. split; [now apply matches_ext'|]. intros o Ho Hne.
+    destruct (Hd o (matches_ext k o Ho) Hne) as [H|H]; [left; now apply HP|right; exact H].
+  Qed.
+
+  Lemma resolves_ext k r : resolves key isa M1 Pf1 d k r -> resolves key isa M2 Pf2 d k r.
+  Proof.
+    intros H. destruct H as [c m Hd Hu Hm|m Hno Hm|Hno Hm|Hex Hnu].
+    - apply res_best with (c := c).
+      + now apply dominant_ext.
+      + intros c' Hc'. apply Hu. now apply dominant_ext'.
+      + now apply HM.
+    - apply res_default with (m := m).
+      + intros c Hc. apply (Hno c). now apply matches_ext'.
+      + now apply HM.
+    - apply res_nomethod.
+      + intros c Hc. apply (Hno c). now apply matches_ext'.
+      + intros m Hm'. apply (Hm m). now apply HM.
+    - apply res_ambiguous.
+      + destruct Hex as [c Hc]. exists c. now apply matches_ext.
+      + intros [c [Hc Hu]]. apply Hnu. exists c. split.
+        * now apply dominant_ext'.
+        * intros c' Hc'. apply Hu. now apply dominant_ext.
+  Qed.
+
+  Lemma NoDup_fst_functional (M : list (key * N)) :
+    NoDup (map fst M) -> forall c m m', In (c, m) M -> In (c, m') M -> m = m'.
+  Proof.
+    intros Hn c m m' H1 H2.
+    pose proof (s_lookup_NoDup key key_eqb key_eqb_spec c M m Hn H1) as E1.
+    pose proof (s_lookup_NoDup key key_eqb key_eqb_spec c M m' Hn H2) as E2. congruence.
+  Qed.
+
+  Theorem resolve_ref_sets k :
+    NoDup (map fst M1) -> NoDup (map fst M2) ->
+    resolve_ref key key_eqb isa M1 Pf1 d k = resolve_ref key key_eqb isa M2 Pf2 d k.
+  Proof.
+    intros N1 N2.
+    apply (resolves_functional key isa M2 Pf2 d k).
+    - now apply NoDup_fst_functional.
+    - apply resolves_ext. now apply resolve_ref_correct.
+    - now apply resolve_ref_correct.
+  Qed.
+End ResolveSets.
+
 (** * isa? *)
 Section IsaProofs.
   Variable supers : N -> list N.
